@@ -1,6 +1,7 @@
 import Drivers.Proto
 import St4sd.Model.TreeJson
 import St4sd.Model.TreeFlatten
+import St4sd.Model.TreeConf
 /-! Model driver for property C04 (layered resolution of a component configuration). -/
 open Lean Proto St4sd.Tree
 
@@ -69,6 +70,24 @@ def handle (j : Json) : Except String Json := do
     let u := layerUserFiles files
     return jobj [("ok", jobj [("global", jsonOfFields u.global),
                               ("stages", jobj (u.stages.map fun (i, v) => (toString i, jsonOfFields v)))])]
+  | "confUser" =>
+    -- read_user_variables("….conf"): "sections" = [[name, {option: text}], …] as configparser hands them out
+    let secs ← (← getArr j "sections").mapM (fun e => do
+      match e with
+      | Json.arr a =>
+        if h : a.size = 2 then do
+          let n ← a[0].getStr?
+          pure (n.toList, ← fieldsOfJson a[1])
+        else throw "section: [name, options] expected"
+      | _ => throw "section: [name, options] expected")
+    let idx := jarr (secs.map fun e => match stageSectionIndex e.1 with
+      | some i => jnat i
+      | none => Json.null)
+    return match confUser secs with
+      | some u => jobj [("ok", jobj [("global", jsonOfFields u.global),
+                                     ("stages", jobj (u.stages.map fun (i, v) => (toString i, jsonOfFields v)))]),
+                        ("indices", idx)]
+      | none => jobj [("error", "bad-section"), ("indices", idx)]
   | "interp" =>
     let ctx ← fieldsOfJson (← j.getObjVal? "ctx")
     let s ← getChars j "s"
